@@ -454,6 +454,8 @@ func runC03(c *Ctx) {
 
 	// ---- R03.8
 	c.mailboxRule("R03.8")
+	c.rule("R03.10", "the read cycle never stalls (restart, loss signal or redial on every path after a message was taken)")
+	c.readCycleRule("R03.10")
 	c.rule("R03.9", "the read deadline is renewed only on evidence of inbound activity, so a silent stall is detected while the client keeps sending")
 	c.deadlineRenewalRule("R03.9")
 }
